@@ -152,6 +152,35 @@ pub fn network_skips() -> Network {
     net
 }
 
+/// network-level skip connections that SHARE a source (1 -> 2, 1 -> 3, 1 -> 4, additive): the source's input gradient is a
+/// sum of several contributions; their order must not follow the iteration order of `Network::connect` (a std HashMap)
+pub fn seg_shared_source() -> Vec<u32> {
+    let mut net = Network::new(Shape::Single(4));
+    for _ in 0..4 {
+        net.dense(4, Activation::Tanh, true, None);
+    }
+    net.dense(2, Activation::Linear, true, None);
+    net.connect(1, 2);
+    net.connect(1, 3);
+    net.connect(1, 4);
+    net.set_accumulation(feedback::Accumulation::Add, feedback::Accumulation::Mean);
+    net.set_objective(Objective::MSE, None);
+    net.set_optimizer(optimizer::SGD::create(0.05, None));
+    let mut r = Mix(0xC05_5A2);
+    let fresh = neurons::verif::params(&net);
+    let filled: Vec<LayerParams> = fresh.iter().map(|p| refill_params(p, &mut r, None)).collect();
+    neurons::verif::set_params(&mut net, &filled);
+    let xs: Vec<Tensor> = (0..4).map(|_| Tensor::single((0..4).map(|_| r.f(1.0)).collect())).collect();
+    let ts: Vec<Tensor> = (0..4).map(|_| Tensor::single((0..2).map(|_| r.f(1.0)).collect())).collect();
+    let (xr, tr): (Vec<&Tensor>, Vec<&Tensor>) = (xs.iter().collect(), ts.iter().collect());
+    let (train, _, _) = net.learn(&xr, &tr, None, 2, 3, None);
+    let mut out: Vec<u32> = train.iter().map(|x| x.to_bits()).collect();
+    for p in neurons::verif::params(&net) {
+        param_bits(&p, &mut out);
+    }
+    out
+}
+
 pub fn seg_skips() -> Vec<u32> {
     let mut net = network_skips();
     let mut r = Mix(0x5C1);
@@ -270,7 +299,7 @@ pub fn partition(n: usize) -> Vec<Vec<usize>> {
         .collect()
 }
 
-pub const SEGMENTS: [&str; 13] = [
+pub const SEGMENTS: [&str; 14] = [
     "learn-adam-b2",
     "learn-adam-b3",
     "learn-adam-b5",
@@ -285,6 +314,7 @@ pub const SEGMENTS: [&str; 13] = [
     "validate-large",
     "learn-predict-wide",
     "learn-block-inskips",
+    "learn-shared-source-skips",
 ];
 
 pub fn run_segment(name: &str) -> Vec<u32> {
@@ -301,6 +331,7 @@ pub fn run_segment(name: &str) -> Vec<u32> {
         "validate-large" => seg_validate_large(),
         "learn-predict-wide" => seg_wide(),
         "learn-block-inskips" => seg_skips(),
+        "learn-shared-source-skips" => seg_shared_source(),
         "predict_batch" => seg_predict(),
         "canary" => seg_canary(),
         _ => panic!("unknown segment {}", name),
